@@ -29,6 +29,7 @@ Print Assumptions C09_after_stop.
 (* draining: established connections untouched, no new one accepted *)
 Theorem C09_drain_keeps_connections : forall s, lconns (lstep true s LDrain) = lconns s /\ bound (lstep true s LDrain) = false.
 Proof. exact drain_keeps_connections. Qed.
+Print Assumptions C09_drain_keeps_connections.
 Theorem C09_no_accept_while_draining : forall l, let s := lrun true l in ldraining s = true -> lstep true s LAccept = s.
 Proof. exact no_accept_while_draining. Qed.
 Print Assumptions C09_no_accept_while_draining.
@@ -42,9 +43,11 @@ Theorem C09_stop_while_binding_refuted :
   let s := lrun false [LServeBegin; LBindFail; LStop; LBindFail] in
   stop_waits s = true /\ phase s = PReturned /\ done_closed s = false.
 Proof. exact stop_while_binding_refuted. Qed.
+Print Assumptions C09_stop_while_binding_refuted.
 Theorem C09_stop_before_serve_refuted :
   let s := lrun false [LStop; LServeBegin; LBindFail] in
   stop_waits s = true /\ phase s = PReturned /\ done_closed s = false.
 Proof. exact stop_before_serve_refuted. Qed.
+Print Assumptions C09_stop_before_serve_refuted.
 Example C09_stop_while_binding_fixed : stop_returns (lrun true [LServeBegin; LBindFail; LStop; LBindFail]) = true.
 Proof. exact stop_while_binding_fixed. Qed.
